@@ -355,8 +355,9 @@ H("c18_psk_chain_0", "c13_derive.rs", ["C13", "C18"], "quick", unwind=30, stubs=
 
 # ------------------------------------------------------------------------------------- C03 / C05 framing
 OUTSIDE["C03"] = ("unforgeability (cryptography); byte-level mutation sweeps over whole messages; seal -> tamper -> open end to end (P17); "
-                  "joiner-side validation of Welcome / GroupInfo / tree; update-path shape validation (P30, P33); membership-tag and "
-                  "signature verification pipelines; Client / ExternalClient entry points")
+                  "joiner-side validation of Welcome / GroupInfo / tree; update-path shape validation (P30, P33); public-message "
+                  "authentication for proposal / commit content and for external / new-member senders (application content from members is covered); "
+                  "signature keys taken from the ratchet tree instead of a key list; Client / ExternalClient entry points")
 OUTSIDE["C05"] = ("the shipped out_of_order ratchet (skipped keys kept in a map: P16, P19, P20): out-of-order delivery and 'each decrypted "
                   "exactly once' for skipped generations; the window interior (gap 3..1024) beyond the unwinding bound; secret-tree "
                   "consumption; ciphertext-level replay (P17); save/reload mid-stream; KDF collisions")
@@ -501,6 +502,41 @@ CLAIMS["C18"] = dict(text="Last sentence of the property only: the PSK secret ch
 
 
 # ------------------------------------------------------------------ additions prompted by seeded changes (DESIGN §9)
+_PA = ("verify_plaintext_authentication (message_verifier.rs) under the uninterpreted provider with signature verification a recorded call "
+       "with symbolic verdict: a member's public message is accepted exactly when %s; the accepted content is reported with the message's "
+       "sender, authenticated data and payload")
+_PAS = "group id, epoch, authenticated data, payload, signature, tag, membership key, both leaf keys, whole GroupContext, signature verdict"
+_PAB = "application content; field lengths fixed (gid 2, ad 1, payload 1, sig 2, keys 2, context 22 bytes); two-leaf key list; sender leaf concrete per instance"
+for i in (0, 1):
+    H("c03_public_auth_tagrule_present_member%d" % i, "c03_public_auth.rs", ["C03"], "quick" if i == 0 else "thorough", unwind=90, mem="X", stubs=ZSTUBS, timeout_s=1500,
+      what=_PA % "its membership tag equals the output of the MAC keyed with the membership key and the signature verifies; a wrong tag is "
+                 "InvalidMembershipTag with no signature check (MAC input compared in the tag_member instances and in c13_membership_tag_*)",
+      symbolic=_PAS, bounds=_PAB + "; tag present", expect_unsat=["vacant sender leaf", "missing tag"])
+    H("c03_public_auth_tagrule_missing_member%d" % i, "c03_public_auth.rs", ["C03"], "quick" if i == 0 else "thorough", unwind=90, mem="H", stubs=ZSTUBS, timeout_s=1500,
+      what="a member's public message without a membership tag is rejected (InvalidMembershipTag) and no signature is verified",
+      symbolic=_PAS, bounds=_PAB + "; tag absent", expect_unsat=["vacant sender leaf", "wrong tag", "bad signature", "accepted"])
+    H("c03_public_auth_tag_member%d" % i, "c03_public_auth.rs", ["C03"], "thorough", unwind=90, mem="X", stubs=ZSTUBS, timeout_s=2400,
+      what=_PA % "its membership tag is present and equals MAC(membership_key, FramedContentTBS || FramedContentAuthData) of THIS message and context "
+                 "(reference encoder from RFC 9420 6.1/6.2) and the signature verifies; a missing or wrong tag is InvalidMembershipTag with no signature check",
+      symbolic=_PAS, bounds=_PAB, expect_unsat=["vacant sender leaf"])
+    H("c03_public_auth_sig_member%d" % i, "c03_public_auth.rs", ["C03"], "quick" if i == 1 else "thorough", unwind=90, mem="H", stubs=ZSTUBS, timeout_s=1200,
+      what=_PA % "exactly one signature verification is made, under the key stored for the CLAIMED sender's leaf, of the message's signature, and it succeeds "
+                 "(no membership key, as for an external observer: the tag is not consulted)",
+      symbolic=_PAS, bounds=_PAB, expect_unsat=["vacant sender leaf", "wrong tag", "missing tag"])
+    H("c03_public_auth_signed_member%d" % i, "c03_public_auth.rs", ["C03"], "thorough", unwind=90, mem="X", stubs=ZSTUBS, timeout_s=2400,
+      what=_PA % "the signature verifies over SignContent('MLS 1.0 FramedContentTBS', FramedContentTBS) with the TBS carrying this sender, group id, epoch, "
+                 "authenticated data, payload and GroupContext (reference encoder from RFC 9420 5.1.2 / 6.1), under the claimed sender's key",
+      symbolic=_PAS, bounds=_PAB, expect_unsat=["vacant sender leaf", "wrong tag", "missing tag"])
+    H("c03_public_auth_vacant_member%d" % i, "c03_public_auth.rs", ["C03"], "quick", unwind=90, mem="M", stubs=ZSTUBS,
+      what="a public message claiming a sender whose leaf holds no key is rejected (LeafNotFound) and nothing is verified",
+      symbolic=_PAS, bounds=_PAB, expect_unsat=["bad signature", "wrong tag", "missing tag", "accepted"])
+H("c03_public_auth_member_outside", "c03_public_auth.rs", ["C03"], "quick", unwind=90, mem="M", stubs=ZSTUBS,
+  what="a public message claiming ANY sender index past the key list is rejected without a verification and without a panic",
+  symbolic="sender index any u32 >= 2, all message fields", bounds=_PAB)
+for nm in ("external", "new_member_proposal", "new_member_commit"):
+    H("c03_public_auth_%s_with_tag" % nm, "c03_public_auth.rs", ["C03"], "quick", unwind=90, mem="L", stubs=ZSTUBS,
+      what="a membership tag on a message from a non-member sender is refused (MembershipTagForNonMember, RFC 9420 6.2) before anything is verified",
+      symbolic="sender index, all message fields, tag, membership key", bounds=_PAB)
 for nm, ty, mem in [("c03_cmp_confirmation_tag", "ConfirmationTag ==", "M"), ("c03_cmp_membership_tag", "MembershipTag ==", "L"),
                     ("c03_cmp_parent_hash", "ParentHash::matches", "L")]:
     H(nm, "c03_c05_framing.rs", ["C03"], "quick", unwind=8, mem=mem,
@@ -600,5 +636,6 @@ CLAIMS["C02"]["text"] = ("Bounded model checking of the removal kernel (blank le
 CLAIMS["C19"]["text"] = ("Bounded model checking of the in-memory provider's retention window for symbolic epoch ids (K <= 5 inserts, R <= 3) and of the prior-epoch sender-key check for "
                          "every occupancy / key assignment of 4-, 3- and 2-leaf trees (tree shrunk since the old epoch included) and ANY u32 sender index. The repository lookup chain is outside.")
 CLAIMS["C03"]["text"] = ("Kernels only: admission gate (version / group id / epoch / encryption) for all inputs; AAD layouts bind every clear field; zero-padding check; padded sizes; sender-data "
-                         "sample; membership-tag input; exact equality of confirmation tags, membership tags and parent hashes. Not a claim about forgery resistance end to end; update-path "
+                         "sample; membership-tag input; exact equality of confirmation tags, membership tags and parent hashes; public-message authentication "
+                         "(membership tag + signature under the claimed sender's key over the RFC's SignContent) as a dataflow statement with uninterpreted MAC / signature. Not a claim about forgery resistance end to end; update-path "
                          "validation and decapsulation are outside (a genuine defect there was found by reading and repaired, see DESIGN 9.5).")
